@@ -83,7 +83,7 @@ impl Property for C18 {
         "SEM programs (declarations nested in foreach / if / let / defset / multiclass, optional parts present or absent, root + headers). Outline per file, in source order: every class, identifier-named def (defs inside a defset as that defset's children), defset and multiclass declared in that file with kind, name and the declaring identifier's range; class children = template arguments in order then one entry per distinct field declared or overridden in the body (range = one of that name's identifiers); def children = its fields. Entries for defs inside multiclass bodies and defs named by a paste expression are not asserted (filtered by name before comparing). Folding: exactly one range per class/def/defset/foreach/if/let/multiclass statement, from its first token to its last non-trivia token, pairwise nested or disjoint. distinct = (seed, n); non-trivial = >=2 nesting constructs and a defset or multiclass".into()
     }
     fn families(&self, ctx: &Ctx) -> Vec<Family> {
-        vec![Family::new("sem-programs", ctx.tier.pick(500, 6000), |_c, rng, emit| {
+        vec![Family::new("sem-programs", ctx.tier.pick(500, 30000), |_c, rng, emit| {
             for _ in 0..50 {
                 if !emit(sem_case(rng, false)) {
                     return;
